@@ -7,8 +7,11 @@
 package main
 
 import (
+	"bytes"
 	"encoding/json"
 	"fmt"
+	"math"
+	"math/big"
 	"os"
 	"os/exec"
 	"regexp"
@@ -51,6 +54,7 @@ func alphabet(thorough bool) []opT {
 	}
 	ops = append(ops, opT{"add", 0, 1, feeLo + 5, 3}, opT{"add", 1, 0, feeLo + 7, 1}, opT{"add", 0, 2, feeLo + 9, 1})
 	ops = append(ops, opT{"add", 0, 3, feeLo, 0}) // a nonce beyond a gap
+	ops = append(ops, opT{"add", 0, 0, math.MaxUint64, 0}) // the largest fee: fee + required increase does not fit into 64 bits
 	ops = append(ops, opT{Kind: "reorg"})
 	if thorough {
 		ops = append(ops, opT{"add", 2, 0, feeLo + 50, 0}, opT{"remove", 0, 0, feeHi, 0})
@@ -114,7 +118,29 @@ func runSeq(cfg conc.PoolCfg, seq []opT) (string, int) {
 		known := map[string]*blockchain.Transaction{}
 		for i, o := range seq {
 			at = i
+			// the transaction the pool holds at the incoming transaction's sender and nonce, if any
+			var holder *blockchain.Transaction
+			if o.Kind == "add" {
+				in := o.tx()
+				for _, k := range known {
+					if bytes.Equal(k.SenderPublicKey, in.SenderPublicKey) && k.Nonce == in.Nonce && !bytes.Equal(k.ID, in.ID) {
+						if _, ok := p.Get(k.ID); ok {
+							holder = k
+						}
+					}
+				}
+			}
 			apply(p, o, known)
+			if holder != nil {
+				// a replacement needs the configured fee increase (computed without wrap-around)
+				in := o.tx()
+				need := new(big.Int).Add(new(big.Int).SetUint64(holder.Fee), new(big.Int).SetUint64(cfg.ReplaceDiff))
+				_, inPool := p.Get(in.ID)
+				if inPool && new(big.Int).SetUint64(in.Fee).Cmp(need) < 0 {
+					fail = fmt.Sprintf("replacement-without-fee-increase: the transaction with fee %d replaced the one with fee %d at the same sender and nonce although the configured increase is %d", in.Fee, holder.Fee, cfg.ReplaceDiff)
+					return
+				}
+			}
 			if bad := conc.PoolInvariants(p, cfg, known); len(bad) > 0 {
 				fail = bad[0]
 				return
